@@ -107,6 +107,13 @@ def run(ctx, rep):
         c02.r_delayscan(sh, rep, "R01-DELAYSCAN")
 
     rep.guarded("R01-DELAYSCAN", delayscan)
+    rep.rule("R07-TAILPICK", "`when` on lists runs the first matching clause: the tail case for a list length is chosen by longest fitting prefix (shared with C07)", floor=2)
+
+    def tailpick():
+        from . import c07
+        c07.r_tailpick(sh, rep)
+
+    rep.guarded("R07-TAILPICK", tailpick)
     rep.rule("R01-TYPEKEY", "decoder-cache keys (push_type_identity) start with a tag that is unique per type constructor", floor=4)
     rep.guarded("R01-TYPEKEY", lambda: r_typekey(sh, rep))
 
